@@ -469,6 +469,19 @@ def main():
     except Exception as e:
         status['selecttrans'] = 'failed: %s' % e
     try:
+        import vectrans
+        g10 = dict(golden)
+        txt, vst = vectrans.lean_file(g10)
+        changed |= write_if_changed(os.path.join(GEN, 'AnaGen.lean'), txt)
+        for k_, v_ in vst.items():
+            status['functions'][k_] = dict(v_, lean='Ana.' + k_[4:], params=[], bools=[], selfattrs=[], absparams=[], nret=1, abscalls=[])
+        if update:
+            for k_, v_ in g10.items():
+                if k_.startswith('ana:'):
+                    golden[k_] = v_
+    except Exception as e:
+        status['vectrans'] = 'failed: %s' % e
+    try:
         import cachesites
         txt, sites = cachesites.lean_table(os.environ.get('IXPE_REPO', os.path.dirname(os.path.dirname(importlib.import_module('ixpeobssim').__file__))))
         changed |= write_if_changed(os.path.join(GEN, 'CacheSites.lean'), txt)
